@@ -28,11 +28,11 @@ func (r *rng) intn(n int) int {
 	}
 	return int(r.u64() % uint64(n))
 }
-func (r *rng) u32() uint32   { return uint32(r.u64()) }
-func (r *rng) u16() uint16   { return uint16(r.u64()) }
-func (r *rng) u8() uint8     { return uint8(r.u64()) }
+func (r *rng) u32() uint32       { return uint32(r.u64()) }
+func (r *rng) u16() uint16       { return uint16(r.u64()) }
+func (r *rng) u8() uint8         { return uint8(r.u64()) }
 func (r *rng) chance(n int) bool { return r.intn(n) == 0 }
-func (r *rng) fork() *rng    { return &rng{s: r.u64()} }
+func (r *rng) fork() *rng        { return &rng{s: r.u64()} }
 
 // interesting 32-bit values
 func (r *rng) ssrc() uint32 {
